@@ -44,6 +44,7 @@ PROBES = [
     "first-triple-of-store-in-operand-graph",
     "binop",
     "source-died-mid-batch",
+    "add-interrupted-by-subscriber",
 ]
 KNOWN_PREDICATES = {}
 
@@ -94,6 +95,7 @@ def generate(seed, tier):
     if store != "memory":
         rw = {k: 0 for k in rw}
     reader_share = g.choice([0.0, 0.3, 0.6]) if store == "memory" else 0.0
+    veto_mode = store == "memory" and g.chance(0.25)
     model = {n: set() for n in NAMES}
     ops = []
     uid = 0
@@ -158,6 +160,8 @@ def generate(seed, tier):
         name = op["g"]
         if kind == "add":
             op["t"] = tri()
+            if veto_mode and g.chance(0.25):
+                op["veto"] = True  # fault: a TripleAddedEvent subscriber of the store raises during this add
             if live_pats and g.chance(0.3):
                 # a triple that an open reader's pattern covers (often the reader iterates another graph of the same store)
                 pt = g.pick(sorted(live_pats.values(), key=repr))
@@ -166,7 +170,8 @@ def generate(seed, tier):
                 others = [x for n in NAMES if n != name for x in present(n)]
                 if others:
                     op["t"] = g.pick(others)
-            model[name].add(tt(op["t"]))
+            if not op.get("veto"):
+                model[name].add(tt(op["t"]))
         elif kind == "addN":
             op["q"] = []
             for _ in range(g.randint(1, 5)):
@@ -216,7 +221,7 @@ def generate(seed, tier):
             op["a"] = g.choice(NAMES)
             op["b"] = g.choice(NAMES)
         ops.append(op)
-    return {"property": ID, "config": {"store": store, "shared": shared, "vocab": [subs, preds, objs]}, "ops": ops}
+    return {"property": ID, "config": {"store": store, "shared": shared, "vocab": [subs, preds, objs], "veto_mode": veto_mode}, "ops": ops}
 
 
 def nontrivial(trace, res):
@@ -246,6 +251,21 @@ def execute(trace, ctx):
     else:
         gs = {n: Graph(SimpleMemory(), URIRef(EX + n)) for n in NAMES}
     model = {n: set() for n in NAMES}
+
+    class SubscriberVeto(Exception):
+        pass
+
+    armed = [False]
+    if mem and cfg.get("veto_mode"):
+        from rdflib.store import TripleAddedEvent
+
+        def on_add(event):
+            if armed[0]:
+                armed[0] = False
+                ctx.fault("subscriber-raised")
+                raise SubscriberVeto()
+
+        st.dispatcher.subscribe(TripleAddedEvent, on_add)
     # all vocabulary triples and patterns (fresh term objects are built per call)
     vt = [(s, p, o) for s in subs for p in preds for o in objs]
     vpat = [(s, p, o) for s in subs + [None] for p in preds + [None] for o in objs + [None]]
@@ -440,10 +460,23 @@ def execute(trace, ctx):
             if store_first[0] and name != "G" and cfg.get("shared"):
                 ctx.probe("first-triple-of-store-in-operand-graph")
             store_first[0] = False
-            g.add((T(t[0]), T(t[1]), T(t[2])))
             kk = tuple(skey(x) for x in t)
-            model[name].add(kk)
-            note_added(name, {kk})
+            if op.get("veto") and mem and cfg.get("veto_mode") and (name == "G" or cfg.get("shared")):
+                # a callee raises in the middle of the call: the add may or may not have happened, but whatever the graph
+                # now says through membership, every other view (len, iteration, all pattern shapes) must say the same
+                armed[0] = True
+                try:
+                    g.add((T(t[0]), T(t[1]), T(t[2])))
+                except SubscriberVeto:
+                    ctx.probe("add-interrupted-by-subscriber")
+                armed[0] = False
+                if (T(t[0]), T(t[1]), T(t[2])) in g:
+                    model[name].add(kk)
+                    note_added(name, {kk})
+            else:
+                g.add((T(t[0]), T(t[1]), T(t[2])))
+                model[name].add(kk)
+                note_added(name, {kk})
         elif k == "addN":
             store_first[0] = False
             quads = [(T(s), T(p), T(o), gs[c]) for s, p, o, c in op["q"]]
